@@ -529,7 +529,7 @@ func (f *FS) Get(p string) ([]byte, bool) {
 	if !ok {
 		return nil, false
 	}
-	return ino.cur, true
+	return append([]byte(nil), ino.cur...), true
 }
 
 // Durable returns the durable content of a file.
@@ -541,7 +541,7 @@ func (f *FS) Durable(p string) ([]byte, bool) {
 	if !ok {
 		return nil, false
 	}
-	return ino.dur, true
+	return append([]byte(nil), ino.dur...), true
 }
 
 // Delete removes a file (external mutation).
